@@ -1,56 +1,529 @@
 /-
-  Aqv.Lemmas.ChainMixedIdx — the index-level mixed model `XSt` (`Aqv.Model.ChainMixed`): the header-chain invariant of the
-  projection `toH` is established by any full-import history and preserved by every header import.
+  Aqv.Lemmas.ChainMixedIdx — the index-level mixed model `XSt` (`Aqv.Model.ChainMixed`): ONE chain fed through
+  `InsertChain` and `InsertHeaderChain` in any order.  Since fix 3f14ce8 (`BlockChain.insert` deletes the number entries
+  above the block it makes the head and re-points stale entries below) the header-chain invariant of the projection `toH`
+  — the number index is exactly the ancestry of the header head, nothing above — holds after EVERY mixed history
+  (`mixInv_run`).
 -/
 import Aqv.Model.ChainMixed
 import Aqv.Lemmas.ChainHdr
 import Aqv.Lemmas.ChainHist
+import Aqv.Lemmas.ChainMixed
 namespace Aqv.Chain
 
 variable {U : Map Blk}
 
-/-- after a history of full imports the shared fields satisfy the header-chain invariant (the header store being the
-    block store) -/
-theorem hinv_of_inv (W : World U) {s : St} (h : Inv U s) : HInv U (toH ⟨s, s.store⟩) := by
-  obtain ⟨hb, C, hI⟩ := h
-  exact ⟨hb, C,
-    { sub := hI.sub
-      headStored := by show s.store s.hhead = some hb; rw [hI.hheadEq]; exact hI.headStored
-      path := hI.path
-      canon := hI.canon
-      tdIntr := hI.tdIntr
-      storeTd := hI.storeTd
-      genNum := hI.genNum }⟩
+/-! ### the header store during a block batch -/
 
-theorem toH_importHeaders (W : World U) (s : XSt) (h : HInv U (toH s)) (chain : List Blk)
-    (hU : ∀ x ∈ chain, U x.id = some x) (coins : List Bool) :
-    toH (xImportHeaders s chain coins).1 = (hImportChain (toH s) chain coins).1.st := by
-  have hg := (hstep_importChain W h chain hU coins).gen
-  have h1 : toH (xImportHeaders s chain coins).1 =
-      { (hImportChain (toH s) chain coins).1.st with genesis := s.full.genesis } := rfl
-  rw [h1]
-  generalize (hImportChain (toH s) chain coins).1.st = r at hg ⊢
-  cases r
-  simp only [toH] at hg
-  subst hg
-  rfl
+/-- the header chain as `HeaderChain` sees it while blocks are written -/
+def hview (H0 : Map Blk) (s : St) : HSt :=
+  { genesis := s.genesis, store := overlay s.store H0, td := s.td, canon := s.canon, hhead := s.hhead }
 
-/-- a phase of header imports on the shared database -/
-def xHeaderPhase (s : XSt) : List (List Blk × List Bool) → XSt
-  | [] => s
-  | (chain, coins) :: rest => xHeaderPhase (xImportHeaders s chain coins).1 rest
+theorem overlay_ext (store H0 : Map Blk) : StoreExt store (overlay store H0) := by
+  intro k x hx
+  simp [overlay, hx]
 
-theorem hinv_headerPhase (W : World U) : ∀ (hs : List (List Blk × List Bool)) (s : XSt), HInv U (toH s) →
-    (∀ c ∈ hs, ∀ x ∈ c.1, U x.id = some x) → HInv U (toH (xHeaderPhase s hs)) := by
-  intro hs
-  induction hs with
-  | nil => intro s h _; exact h
-  | cons c rest ih =>
-    intro s h hU
-    obtain ⟨chain, coins⟩ := c
-    apply ih
-    · rw [toH_importHeaders W s h chain (hU (chain, coins) (by simp)) coins]
-      exact (hstep_importChain W h chain (hU (chain, coins) (by simp)) coins).inv
-    · intro c' hc'; exact hU c' (List.mem_cons_of_mem _ hc')
+theorem overlay_upd (store H0 : Map Blk) (k : Nat) (b : Blk) :
+    overlay (upd store k (some b)) H0 = upd (overlay store H0) k (some b) := by
+  funext x
+  unfold overlay upd
+  by_cases hx : x = k
+  · simp [hx]
+  · simp [hx]
+
+theorem overlay_of_ext {store H0 : Map Blk} (h : StoreExt store H0) : overlay store H0 = H0 := by
+  funext k
+  unfold overlay
+  cases hk : store k with
+  | none => rfl
+  | some b => simp only; exact (h _ _ hk).symm
+
+theorem overlay_idem (store H0 : Map Blk) : overlay store (overlay store H0) = overlay store H0 :=
+  overlay_of_ext (overlay_ext store H0)
+
+/-- the height of the block stored under a hash (0 if there is none) -/
+def numAt (store : Map Blk) (k : Nat) : Nat :=
+  match store k with
+  | some x => x.number
+  | none => 0
+
+/-- the bound of the "entries above" loop covers the header head: it is not higher than the ghost bound `top`, or it is
+    a stored block -/
+def FuelOk (H0 : Map Blk) (s : St) : Prop :=
+  ∀ hh, overlay s.store H0 s.hhead = some hh → hh.number ≤ max s.top (numAt s.store s.hhead)
+
+theorem numAt_some {store : Map Blk} {k : Nat} {x : Blk} (h : store k = some x) : numAt store k = x.number := by
+  simp [numAt, h]
+
+theorem indexFuel_ge (s : St) : max s.top (numAt s.store s.hhead) ≤ indexFuel s := by
+  unfold indexFuel numAt
+  cases s.store s.hhead with
+  | none => simp only; omega
+  | some y => simp only; omega
+
+/-- what a block batch maintains on a chain that also takes header batches -/
+structure MixP (U : Map Blk) (H0 : Map Blk) (s : St) : Prop where
+  hinv : HInv U (hview H0 s)
+  closed : Closed s
+  headStored : ∃ hb, s.store s.head = some hb
+  fuel : FuelOk H0 s
+
+theorem mixP_congr {H0 : Map Blk} {s s' : St} (h : MixP U H0 s) (h1 : s'.store = s.store) (h2 : s'.genesis = s.genesis)
+    (h3 : s'.td = s.td) (h4 : s'.canon = s.canon) (h5 : s'.hhead = s.hhead) (h6 : s'.head = s.head)
+    (h7 : s'.top = s.top) : MixP U H0 s' := by
+  cases s
+  cases s'
+  simp only at h1 h2 h3 h4 h5 h6 h7
+  subst h1 h2 h3 h4 h5 h6 h7
+  exact ⟨h.hinv, h.closed, h.headStored, h.fuel⟩
+
+theorem MixP.fuel_le {H0 : Map Blk} {s : St} (h : MixP U H0 s) {hh : Blk} {HC : List Blk}
+    (hI : HInvC U (hview H0 s) hh HC) : hh.number ≤ indexFuel s := by
+  have := h.fuel hh hI.headStored
+  have := indexFuel_ge s
+  omega
+
+theorem HInvC.toIdxC {s : HSt} {hb : Blk} {C : List Blk} (W : World U) (h : HInvC U s hb C) :
+    IdxC U s.store s.genesis s.canon hb C :=
+  { sub := h.sub, headStored := by rw [h.headId W]; exact h.headStored, path := h.path, canon := h.canon,
+    genNum := h.genNum }
+
+/-- the store and the td table grew (by blocks of the universe with intrinsic td records), index and header head are
+    the same: the header-chain invariant is kept -/
+theorem hinvC_mono (W : World U) {H0 : Map Blk} {s s' : St} {hh : Blk} {HC : List Blk}
+    (h : HInvC U (hview H0 s) hh HC) (hgen : s'.genesis = s.genesis) (hcanon : s'.canon = s.canon)
+    (hhh : s'.hhead = s.hhead) (hext : StoreExt s.store s'.store) (hsub : StoreExt (overlay s'.store H0) U)
+    (htdI : ∀ k t, s'.td k = some t → ∃ x l, U k = some x ∧ Path U x l s.genesis ∧ t = s.genesis.diff + diffSum l)
+    (hstd : ∀ k x, overlay s'.store H0 k = some x → (s'.td k).isSome = true) :
+    HInvC U (hview H0 s') hh HC := by
+  have hov : StoreExt (overlay s.store H0) (overlay s'.store H0) := by
+    intro k x hx
+    have hxU := h.sub k x hx
+    unfold overlay at hx ⊢
+    cases hk : s.store k with
+    | some y =>
+      rw [hk] at hx
+      simp only at hx
+      rw [hext _ _ hk]
+      exact hx
+    | none =>
+      rw [hk] at hx
+      simp only at hx
+      cases hk' : s'.store k with
+      | none => exact hx
+      | some y =>
+        simp only
+        have : overlay s'.store H0 k = some y := by simp [overlay, hk']
+        have hyU := hsub _ _ this
+        rw [hxU] at hyU
+        exact hyU.symm
+  exact
+    { sub := hsub
+      headStored := by show overlay s'.store H0 s'.hhead = some hh; rw [hhh]; exact hov _ _ h.headStored
+      path := by show Path (overlay s'.store H0) hh HC s'.genesis; rw [hgen]; exact h.path.mono hov
+      canon := by
+        have := h.canon
+        simp only [hview] at this ⊢
+        rw [hcanon, hgen]; exact this
+      tdIntr := by
+        simp only [hview]
+        rw [hgen]; exact htdI
+      storeTd := hstd
+      genNum := by show s'.genesis.number = 0; rw [hgen]; exact h.genNum }
+
+theorem fuelOk_mono {H0 : Map Blk} {s s' : St} (h : FuelOk H0 s) (hsubU : StoreExt (overlay s'.store H0) U)
+    (hsub0 : StoreExt (overlay s.store H0) U) (W : World U)
+    (hext : StoreExt s.store s'.store) (hhh : s'.hhead = s.hhead) (htop : s.top ≤ s'.top)
+    (hhead : ∀ hh, overlay s'.store H0 s.hhead = some hh → overlay s.store H0 s.hhead = some hh ∨ s'.store s.hhead = some hh) :
+    FuelOk H0 s' := by
+  intro hh hhs
+  rw [hhh] at hhs ⊢
+  rcases hhead hh hhs with h0 | h1
+  · have := h hh h0
+    have hle : numAt s.store s.hhead ≤ numAt s'.store s.hhead := by
+      unfold numAt
+      cases hk : s.store s.hhead with
+      | none => simp only; omega
+      | some y => rw [hext _ _ hk]; simp only; omega
+    omega
+  · rw [numAt_some h1]
+    omega
+
+/-- a block of the universe is written next to the chain (td record, block): `WriteBlockWithState` on its side branch,
+    `WriteBlockWithoutState`, or the first half of the canonical branches -/
+theorem mixP_grow (W : World U) {H0 : Map Blk} {s s' : St} (h : MixP U H0 s) {b p : Blk} (hbU : U b.id = some b)
+    (hpar : parentOf s.store b = some p) {ptd : Nat} (hptd : s.td b.parent = some ptd)
+    (hgen : s'.genesis = s.genesis) (hcanon : s'.canon = s.canon) (hhh : s'.hhead = s.hhead) (hhead : s'.head = s.head)
+    (htop : s'.top = s.top) (htd : s'.td = upd s.td b.id (some (ptd + b.diff)))
+    (hstore : s'.store = upd s.store b.id (some b)) : MixP U H0 s' := by
+  obtain ⟨hh, HC, hI⟩ := h.hinv
+  have hsubS : StoreExt s.store U := fun k x hx => hI.sub _ _ (overlay_ext _ _ _ _ hx)
+  obtain ⟨he1, he2⟩ := storeExt_updK hsubS hbU
+  have hsubO : StoreExt (overlay s'.store H0) U := by
+    rw [hstore, overlay_upd]
+    exact (storeExt_updK hI.sub hbU).2
+  have hext : StoreExt s.store s'.store := by rw [hstore]; exact he1
+  refine ⟨⟨hh, HC, hinvC_mono W hI hgen hcanon hhh hext hsubO ?_ ?_⟩, ?_, ?_, ?_⟩
+  · rw [htd]
+    exact tdIntr_updK W hsubS hI.tdIntr hbU hpar hptd
+  · intro k x hx
+    rw [htd]
+    by_cases hk : k = b.id
+    · subst hk; simp
+    · rw [upd_other _ _ _ _ hk]
+      rw [hstore, overlay_upd, upd_other _ _ _ _ hk] at hx
+      exact hI.storeTd k x hx
+  · intro k x hx
+    rw [hgen]
+    rw [hstore] at hx ⊢
+    apply closed_upd h.closed hpar he1 _ k x hx
+    intro k' x' hx'
+    by_cases hk : k' = b.id
+    · subst hk; simp at hx'; exact .inr hx'.symm
+    · rw [upd_other _ _ _ _ hk] at hx'; exact .inl hx'
+  · obtain ⟨hb, hhb⟩ := h.headStored
+    exact ⟨hb, by rw [hhead]; exact hext _ _ hhb⟩
+  · apply fuelOk_mono h.fuel hsubO hI.sub W hext hhh (by omega)
+    intro hh' hhs
+    rw [hstore, overlay_upd] at hhs
+    by_cases hk : s.hhead = b.id
+    · right
+      rw [hk] at hhs ⊢
+      rw [hstore]
+      simpa using hhs
+    · left
+      rw [upd_other _ _ _ _ hk] at hhs
+      exact hhs
+
+/-- one call of `BlockChain.insert` for a stored block -/
+theorem mixP_insert (W : World U) {H0 : Map Blk} {t : St} (h : MixP U H0 t) {x : Blk} (hxs : t.store x.id = some x) :
+    MixP U H0 (insertHead t x) := by
+  obtain ⟨hh, HC, hI⟩ := h.hinv
+  have hIc := hI.toIdxC W
+  by_cases hc : t.canon x.number = some x.id
+  · rw [insertHead_same hc]
+    exact ⟨h.hinv, h.closed, ⟨x, hxs⟩, h.fuel⟩
+  · obtain ⟨lx, hlx⟩ := h.closed _ _ hxs
+    cases hlx with
+    | nil =>
+      -- `x` is the genesis block, which is always indexed
+      exfalso
+      apply hc
+      have := (hI.canon 0 t.genesis.id).mpr
+        ⟨t.genesis, List.mem_append_right _ (List.mem_singleton.mpr rfl), hI.genNum, rfl⟩
+      have hg0 : t.genesis.number = 0 := hI.genNum
+      rw [hg0]
+      exact this
+    | cons hpar hrest =>
+      obtain ⟨HC', hnew, hhh⟩ := insert_index W (overlay_ext t.store H0) hIc (h.fuel_le hI) hxs hpar hrest hc
+      refine ⟨⟨x, HC', ?_⟩, h.closed, ⟨x, hxs⟩, ?_⟩
+      · exact
+          { sub := hI.sub
+            headStored := by
+              show overlay t.store H0 (insertHead t x).hhead = some x
+              rw [hhh]; exact overlay_ext _ _ _ _ hxs
+            path := hnew.path
+            canon := hnew.canon
+            tdIntr := hI.tdIntr
+            storeTd := hI.storeTd
+            genNum := hI.genNum }
+      · intro hh' hhs
+        have h1 : (insertHead t x).hhead = x.id := hhh
+        have h2 : (insertHead t x).store = t.store := rfl
+        rw [h1, h2] at hhs ⊢
+        rw [numAt_some hxs]
+        have : overlay t.store H0 x.id = some x := overlay_ext _ _ _ _ hxs
+        rw [this] at hhs
+        cases hhs
+        omega
+
+/-- the re-insertion loop of `reorg` -/
+theorem mixP_fold (W : World U) {H0 : Map Blk} {t : St} (h : MixP U H0 t) : ∀ (N : List Blk),
+    (∀ x ∈ N, t.store x.id = some x) → MixP U H0 (N.foldr reorgStep t) := by
+  intro N
+  induction N with
+  | nil => intro _; exact h
+  | cons x N ih =>
+    intro hN
+    have h1 := ih (fun y hy => hN y (List.mem_cons_of_mem _ hy))
+    have hxs : (N.foldr reorgStep t).store x.id = some x := by rw [foldr_store]; exact hN x (by simp)
+    have h2 := mixP_insert W h1 hxs
+    exact mixP_congr h2 rfl rfl rfl rfl rfl rfl rfl
+
+theorem upd_self {α : Type} (m : Map α) (k : Nat) (v : Option α) (h : m k = v) : upd m k v = m := by
+  funext x
+  unfold upd
+  split
+  · rename_i hx; rw [hx, h]
+  · rfl
+
+/-- `WriteBlockWithState` -/
+theorem mixP_wbws (W : World U) {H0 : Map Blk} {s : St} (h : MixP U H0 s) {b p : Blk} (hbU : U b.id = some b)
+    (hpar : parentOf s.store b = some p) (coin : Bool) :
+    MixP U H0 (writeBlockWithState s b coin).st ∧ (writeBlockWithState s b coin).err ≠ some .reorgFail := by
+  obtain ⟨hh, HC, hI⟩ := h.hinv
+  have hsubS : StoreExt s.store U := fun k x hx => hI.sub _ _ (overlay_ext _ _ _ _ hx)
+  rcases wbws_cases s b coin with ⟨e, he, hne⟩ | ⟨ptd, cur, hptd, hcur, hr, he⟩ |
+    ⟨ptd, s2, cur, lt, hptd, hcur, hlt, hdec, hs2, he⟩ | ⟨ptd, cur, lt, hptd, _, _, _, he⟩
+  · rw [he]; exact ⟨h, by simpa using hne⟩
+  · exact absurd hr (reorg_ok_of_closedK hsubS h.closed hI.genNum hcur hbU hpar ptd)
+  · rw [he]
+    refine ⟨?_, by simp⟩
+    -- the database with the records of `b`
+    have hB : MixP U H0 (afterStored s b ptd) := mixP_grow W h hbU hpar hptd rfl rfl rfl rfl rfl rfl rfl
+    have hbs : (afterStored s b ptd).store b.id = some b := by
+      show upd s.store b.id (some b) b.id = some b; simp
+    rcases hs2 with hs2 | hr
+    · subst hs2
+      have h1 : MixP U H0 { afterTd s b ptd with
+          store := upd s.store b.id (some b)
+          receipts := updB s.receipts b.id true
+          lookup := writeLookups s.lookup b
+          seen := updB s.seen b.id true } := mixP_congr hB rfl rfl rfl rfl rfl rfl rfl
+      exact mixP_insert W h1 (by show upd s.store b.id (some b) b.id = some b; simp)
+    · obtain ⟨o, n, c, c', oc1, nc1, oc2, nc2, _, _, hp2', _, _, hw2', _, _, hs2⟩ := reorg_spec hr
+      subst hs2
+      have hids : ∀ k y, (afterStored s b ptd).store k = some y → y.id = k := by
+        obtain ⟨hh1, HC1, hI1⟩ := hB.hinv
+        exact fun k y hy => W.ids _ _ (hI1.sub _ _ (overlay_ext _ _ _ _ hy))
+      have hN := (hp2'.append hw2').stored_of hids hbs
+      have h1 := mixP_fold W hB (nc1 ++ nc2) hN.1
+      have hst : (reorgApply (afterStored s b ptd) (oc1 ++ oc2) (nc1 ++ nc2)).store = (afterStored s b ptd).store :=
+        reorgApply_store _ _ _
+      have hbs2 : (reorgApply (afterStored s b ptd) (oc1 ++ oc2) (nc1 ++ nc2)).store b.id = some b := by
+        rw [hst]; exact hbs
+      have h2 : MixP U H0 { reorgApply (afterStored s b ptd) (oc1 ++ oc2) (nc1 ++ nc2) with
+          store := upd (reorgApply (afterStored s b ptd) (oc1 ++ oc2) (nc1 ++ nc2)).store b.id (some b)
+          receipts := updB (reorgApply (afterStored s b ptd) (oc1 ++ oc2) (nc1 ++ nc2)).receipts b.id true
+          lookup := writeLookups (reorgApply (afterStored s b ptd) (oc1 ++ oc2) (nc1 ++ nc2)).lookup b
+          seen := updB (reorgApply (afterStored s b ptd) (oc1 ++ oc2) (nc1 ++ nc2)).seen b.id true } := by
+        refine mixP_congr h1 ?_ rfl rfl rfl rfl rfl rfl
+        show upd (reorgApply (afterStored s b ptd) (oc1 ++ oc2) (nc1 ++ nc2)).store b.id (some b) = _
+        rw [upd_self _ _ _ hbs2]
+        exact (foldr_store _ _).symm ▸ rfl
+      exact mixP_insert W h2 (by
+        show upd (reorgApply (afterStored s b ptd) (oc1 ++ oc2) (nc1 ++ nc2)).store b.id (some b) b.id = some b
+        simp)
+  · rw [he]
+    exact ⟨mixP_grow W h hbU hpar hptd rfl rfl rfl rfl rfl rfl rfl, by simp⟩
+
+theorem mixP_base {H0 : Map Blk} {s : St} (h : MixP U H0 s) : Base U s := by
+  obtain ⟨hh, HC, hI⟩ := h.hinv
+  exact ⟨fun k x hx => hI.sub _ _ (overlay_ext _ _ _ _ hx), h.headStored,
+    fun k x hx => hI.storeTd k x (overlay_ext _ _ _ _ hx)⟩
+
+theorem mixP_stable (W : World U) (H0 : Map Blk) : Stable U (MixP U H0) True where
+  base := fun _ h => mixP_base h
+  wbws := fun s b p coin h hbU hpar _ => ⟨fun _ => (mixP_wbws W h hbU hpar coin).1, fun _ => (mixP_wbws W h hbU hpar coin).2⟩
+  without := fun s b p ptd h hbU hpar hptd => mixP_grow W h hbU hpar hptd rfl rfl rfl rfl rfl rfl rfl
+
+/-! ### the mixed model -/
+
+/-- the invariant of a chain fed through both import paths -/
+structure MixInv (U : Map Blk) (x : XSt) : Prop where
+  p : MixP U x.hdrs x.full
+  ext : StoreExt x.full.store x.hdrs
+
+theorem MixInv.hinv {x : XSt} (h : MixInv U x) : HInv U (toH x) := by
+  have := h.p.hinv
+  unfold hview at this
+  rw [overlay_of_ext h.ext] at this
+  exact this
+
+theorem mixInv_init (g : Blk) (hgU : U g.id = some g) (hg0 : g.number = 0) : MixInv U (xinit g) := by
+  have hst : (xinit g).full.store = (xinit g).hdrs := rfl
+  refine ⟨⟨?_, ?_, ⟨g, by simp [xinit, init]⟩, ?_⟩, by rw [hst]; exact fun _ _ hx => hx⟩
+  · have : hview (xinit g).hdrs (xinit g).full = hinit g := by
+      unfold hview
+      rw [hst, overlay_of_ext (fun _ _ hx => hx)]
+      rfl
+    rw [this]
+    exact ⟨g, [], hinvC_init g hgU hg0⟩
+  · intro k x hx
+    have hx' : upd (fun _ => none) g.id (some g) k = some x := hx
+    by_cases hk : k = g.id
+    · subst hk; simp at hx'; subst hx'; exact ⟨[], .nil _⟩
+    · rw [upd_other _ _ _ _ hk] at hx'; cases hx'
+  · intro hh hhs
+    have h1 : (xinit g).full.hhead = g.id := rfl
+    have h2 : (xinit g).full.store g.id = some g := by simp [xinit, init]
+    rw [h1] at hhs ⊢
+    rw [numAt_some h2]
+    have : overlay (xinit g).full.store (xinit g).hdrs g.id = some g := overlay_ext _ _ _ _ h2
+    rw [this] at hhs
+    cases hhs
+    omega
+
+theorem raiseTop_le (s : St) (chain : List Blk) : s.top ≤ (raiseTop s chain).top ∧
+    ∀ y ∈ chain, y.number ≤ (raiseTop s chain).top := by
+  unfold raiseTop
+  simp only
+  generalize s.top = m
+  induction chain generalizing m with
+  | nil => exact ⟨Nat.le_refl _, by simp⟩
+  | cons a l ih =>
+    simp only [List.foldl_cons]
+    obtain ⟨h1, h2⟩ := ih (max m a.number)
+    refine ⟨by omega, ?_⟩
+    intro y hy
+    rcases List.mem_cons.mp hy with rfl | hy
+    · omega
+    · exact h2 y hy
+
+/-- raising the ghost bound changes nothing else -/
+theorem mixP_raiseTop {x : XSt} (h : MixInv U x) (chain : List Blk) : MixP U x.hdrs (raiseTop x.full chain) := by
+  refine ⟨h.p.hinv, h.p.closed, h.p.headStored, ?_⟩
+  intro hh' hhs
+  have := h.p.fuel hh' hhs
+  have hle := (raiseTop_le x.full chain).1
+  show hh'.number ≤ max (raiseTop x.full chain).top (numAt x.full.store x.full.hhead)
+  omega
+
+/-- a block batch -/
+theorem mixInv_blocks (W : World U) {x : XSt} (h : MixInv U x) (chain : List Blk) (hU : ∀ b ∈ chain, U b.id = some b)
+    (coins : List (List Bool)) : MixInv U (xImportChain x chain coins).1 := by
+  have h0 := mixP_raiseTop h chain
+  have h1 := (stable_importChain W (mixP_stable W x.hdrs) h0 chain hU coins)
+  have hP := h1.1 (h1.2.1 trivial)
+  have hx' : (xImportChain x chain coins).1 =
+      ⟨(importChain (raiseTop x.full chain) chain coins).1.st,
+        overlay (importChain (raiseTop x.full chain) chain coins).1.st.store x.hdrs⟩ := rfl
+  rw [hx']
+  generalize (importChain (raiseTop x.full chain) chain coins).1.st = r at hP
+  refine ⟨?_, overlay_ext _ _⟩
+  obtain ⟨hh', HC', hI'⟩ := hP.hinv
+  refine ⟨⟨hh', HC', ?_⟩, hP.closed, hP.headStored, ?_⟩
+  · have : hview (overlay r.store x.hdrs) r = hview x.hdrs r := by
+      unfold hview; rw [overlay_idem]
+    rw [this]; exact hI'
+  · intro hh'' hhs
+    rw [overlay_idem] at hhs
+    exact hP.fuel hh'' hhs
+
+/-- the header head after a header batch is the old one or one of the headers of the batch -/
+theorem writeHeader_hhead (s : HSt) (h : Blk) (coin : Bool) :
+    (writeHeader s h coin).st.hhead = s.hhead ∨ (writeHeader s h coin).st.hhead = h.id := by
+  unfold writeHeader
+  cases s.td h.parent with
+  | none => exact .inl rfl
+  | some ptd =>
+    simp only
+    cases s.store s.hhead with
+    | none => exact .inl rfl
+    | some cur =>
+      cases s.td s.hhead with
+      | none => exact .inl rfl
+      | some localTd =>
+        simp only
+        split
+        · cases h.number with
+          | zero => exact .inl rfl
+          | succ k =>
+            simp only
+            split
+            · exact .inl rfl
+            · split
+              · exact .inl rfl
+              · exact .inr rfl
+        · exact .inl rfl
+
+theorem hInsertSeq_hhead : ∀ (l : List Blk) (s : HSt) (coins : List Bool) (i : Nat),
+    (hInsertSeq s l coins i).1.st.hhead = s.hhead ∨ ∃ y ∈ l, (hInsertSeq s l coins i).1.st.hhead = y.id := by
+  intro l
+  induction l with
+  | nil => intro s coins i; exact .inl rfl
+  | cons h rest ih =>
+    intro s coins i
+    unfold hInsertSeq
+    split
+    · rcases ih s coins (i + 1) with h1 | ⟨y, hy, h1⟩
+      · exact .inl h1
+      · exact .inr ⟨y, List.mem_cons_of_mem _ hy, h1⟩
+    · simp only
+      have hw := writeHeader_hhead s h (coins.headD false)
+      split
+      · rcases hw with hw | hw
+        · exact .inl hw
+        · exact .inr ⟨h, by simp, hw⟩
+      · rcases ih (writeHeader s h (coins.headD false)).st coins.tail (i + 1) with h1 | ⟨y, hy, h1⟩
+        · rcases hw with hw | hw
+          · exact .inl (by rw [h1, hw])
+          · exact .inr ⟨h, by simp, by rw [h1, hw]⟩
+        · exact .inr ⟨y, List.mem_cons_of_mem _ hy, h1⟩
+
+theorem hImportChain_hhead (s : HSt) (chain : List Blk) (coins : List Bool) :
+    (hImportChain s chain coins).1.st.hhead = s.hhead ∨ ∃ y ∈ chain, (hImportChain s chain coins).1.st.hhead = y.id := by
+  unfold hImportChain
+  split
+  · exact .inl rfl
+  · split
+    · exact .inl rfl
+    · split
+      · exact .inl rfl
+      · exact hInsertSeq_hhead _ s coins 0
+
+/-- a header batch -/
+theorem mixInv_headers (W : World U) {x : XSt} (h : MixInv U x) (chain : List Blk) (hU : ∀ b ∈ chain, U b.id = some b)
+    (coins : List Bool) : MixInv U (xImportHeaders x chain coins).1 := by
+  have hH := h.hinv
+  have hstep := hstep_importChain W hH chain hU coins
+  have hhd := hImportChain_hhead (toH x) chain coins
+  have hx' : (xImportHeaders x chain coins).1 =
+      ⟨{ raiseTop x.full chain with
+          td := (hImportChain (toH x) chain coins).1.st.td
+          canon := (hImportChain (toH x) chain coins).1.st.canon
+          hhead := (hImportChain (toH x) chain coins).1.st.hhead },
+        (hImportChain (toH x) chain coins).1.st.store⟩ := rfl
+  rw [hx']
+  generalize (hImportChain (toH x) chain coins).1.st = r at hstep hhd
+  have hext : StoreExt x.full.store r.store := fun k y hy => hstep.ext _ _ (h.ext _ _ hy)
+  have hgen : r.genesis = x.full.genesis := hstep.gen
+  refine ⟨⟨?_, ?_, h.p.headStored, ?_⟩, hext⟩
+  · have : hview r.store { raiseTop x.full chain with td := r.td, canon := r.canon, hhead := r.hhead } = r := by
+      cases r
+      simp only [hview, HSt.mk.injEq, and_true]
+      exact ⟨hgen.symm, overlay_of_ext hext⟩
+    rw [this]
+    exact hstep.inv
+  · exact h.p.closed
+  · intro hh hhs
+    have hhs' : overlay x.full.store r.store r.hhead = some hh := hhs
+    rw [overlay_of_ext hext] at hhs'
+    show hh.number ≤ max (raiseTop x.full chain).top (numAt x.full.store r.hhead)
+    have htop := raiseTop_le x.full chain
+    rcases hhd with hold | ⟨y, hy, hnew⟩
+    · -- the header head did not move
+      have hold' : r.hhead = x.full.hhead := hold
+      rw [hold'] at hhs' ⊢
+      obtain ⟨hh0, HC0, hI0⟩ := hH
+      have h0 : x.hdrs x.full.hhead = some hh0 := hI0.headStored
+      have h1 : r.store x.full.hhead = some hh0 := hstep.ext _ _ h0
+      rw [h1] at hhs'
+      cases hhs'
+      have := h.p.fuel hh (by rw [overlay_of_ext h.ext]; exact h0)
+      omega
+    · -- it is a header of the batch, whose height `top` covers
+      obtain ⟨hh1, HC1, hI1⟩ := hstep.inv
+      have hyU := hU y hy
+      have hhU : U r.hhead = some hh := hI1.sub _ _ hhs'
+      rw [hnew, hyU] at hhU
+      cases hhU
+      have := htop.2 hh hy
+      omega
+
+theorem mixInv_step (W : World U) {x : XSt} (h : MixInv U x) (op : MOp) (hop : MOpOk U op) : MixInv U (xstep x op) := by
+  cases op with
+  | blocks chain cs => exact mixInv_blocks W h chain hop _
+  | headers chain coins => exact mixInv_headers W h chain hop coins
+
+/-- the invariant holds after every mixed history -/
+theorem mixInv_run (W : World U) : ∀ (ops : List MOp) {x : XSt}, MixInv U x → (∀ op ∈ ops, MOpOk U op) →
+    MixInv U (xrun x ops) := by
+  intro ops
+  induction ops with
+  | nil => intro x h _; exact h
+  | cons op ops ih =>
+    intro x h hops
+    exact ih (mixInv_step W h op (hops op (by simp))) (fun o ho => hops o (List.mem_cons_of_mem _ ho))
 
 end Aqv.Chain
